@@ -16,17 +16,25 @@ class MalCompiler:
         self.current_file = None
 
     def compile(self, malfile: Optional[str] = None):
-        if not self.path:
-            self.path = os.path.dirname(malfile)
+        # An included file is given relative to the directory of the file
+        # that includes it (self.path while that file is being visited).
+        if self.path and not os.path.isabs(malfile):
+            malfile = os.path.join(self.path, malfile)
 
+        including_path, including_file = self.path, self.current_file
+        self.path = os.path.dirname(malfile)
         self.current_file = os.path.basename(malfile)
 
-        input_stream = FileStream(
-            os.path.join(self.path, self.current_file), encoding="utf-8"
-        )
-        lexer = malLexer(input_stream)
-        stream = CommonTokenStream(lexer)
-        parser = malParser(stream)
-        tree = parser.mal()
+        try:
+            input_stream = FileStream(
+                os.path.join(self.path, self.current_file), encoding="utf-8"
+            )
+            lexer = malLexer(input_stream)
+            stream = CommonTokenStream(lexer)
+            parser = malParser(stream)
+            tree = parser.mal()
 
-        return malVisitor(compiler=self).visit(tree)
+            return malVisitor(compiler=self).visit(tree)
+        finally:
+            # back to the including file (nothing, for the root file)
+            self.path, self.current_file = including_path, including_file
